@@ -30,7 +30,9 @@ type trace struct {
 	init   StateJ
 	steps  []stepRec
 	quotas [][]ItemJ
+	sts    []*[2]int64
 	oks    []bool
+	apis   []map[string]bool // API-backed store mode: names of the API objects after every op (apis[0]: initially)
 }
 
 type verdict struct {
@@ -41,7 +43,7 @@ type verdict struct {
 // runImpl plays the history on the real code.
 func runImpl(cs Case) (tr trace, v *verdict) {
 	var im *Impl
-	msg, p := rig.Recover(func() { im = newImpl(cs.Shards) })
+	msg, p := rig.Recover(func() { im = newImpl(cs.Shards, cs.Store) })
 	if p {
 		return tr, &verdict{kind: "diff", class: "c18.rig-panic", what: "building the rateLimiter panicked: " + msg}
 	}
@@ -50,6 +52,9 @@ func runImpl(cs Case) (tr trace, v *verdict) {
 		return tr, &verdict{kind: "diff", class: "c18.observe", what: err.Error()}
 	}
 	tr.init = st
+	if im.api != nil {
+		tr.apis = append(tr.apis, im.api.names())
+	}
 	for k, op := range cs.Ops {
 		var out OutJ
 		var quota []ItemJ
@@ -75,7 +80,11 @@ func runImpl(cs Case) (tr trace, v *verdict) {
 		}
 		tr.steps = append(tr.steps, stepRec{Out: out, State: st})
 		tr.quotas = append(tr.quotas, quota)
+		tr.sts = append(tr.sts, out.St)
 		tr.oks = append(tr.oks, out.K != "err")
+		if im.api != nil {
+			tr.apis = append(tr.apis, im.api.names())
+		}
 	}
 	return tr, nil
 }
@@ -84,10 +93,11 @@ func modelOps(cs Case, tr trace) []map[string]interface{} {
 	ops := make([]map[string]interface{}, len(cs.Ops))
 	for k, op := range cs.Ops {
 		var q []ItemJ
+		var st *[2]int64
 		if k < len(tr.quotas) {
-			q = tr.quotas[k]
+			q, st = tr.quotas[k], tr.sts[k]
 		}
-		ops[k] = modelOp(op, q)
+		ops[k] = modelOp(op, q, st)
 	}
 	return ops
 }
@@ -137,6 +147,11 @@ func check(c *rig.Ctx, cs Case) (*verdict, trace) {
 		return &verdict{kind: "judge", class: x.Class, what: fmt.Sprintf("%s at op %d %s", x.Class, x.Step, describe(cs.Ops[x.Step])),
 			impl: map[string]interface{}{"before": states[x.Step], "after": states[x.Step+1]}}, tr
 	}
+	// API-backed store: what the passes reclaimed from the cache must be gone from the API too, and the API never
+	// holds a condition the cache does not know (write-through mode, leadership kept)
+	if v := judgeAPI(cs, tr, states); v != nil {
+		return v, tr
+	}
 	// correspondence
 	var mr struct {
 		Init  StateJ    `json:"init"`
@@ -170,12 +185,41 @@ func check(c *rig.Ctx, cs Case) (*verdict, trace) {
 	return nil, tr
 }
 
+func judgeAPI(cs Case, tr trace, states []StateJ) *verdict {
+	if tr.apis == nil {
+		return nil
+	}
+	for k := range cs.Ops {
+		pre, post, api := states[k], states[k+1], tr.apis[k+1]
+		cached := map[string]bool{}
+		for _, c := range post.Conds {
+			cached[rig.UnHex(c.Name)] = true
+		}
+		if op := cs.Ops[k].Op; op == "cleanupTimeout" || op == "cleanupUnknown" {
+			for _, c := range pre.Conds {
+				n := rig.UnHex(c.Name)
+				if !cached[n] && api[n] {
+					return &verdict{kind: "judge", class: "c18.k8s-api-keeps-reclaimed-condition",
+						what: fmt.Sprintf("op %d (%s): condition %q was reclaimed from the store's cache but is still in the API", k, op, n)}
+				}
+			}
+		}
+		for n := range api {
+			if !cached[n] {
+				return &verdict{kind: "judge", class: "c18.k8s-api-object-unknown-to-cache",
+					what: fmt.Sprintf("op %d (%s): the API holds condition %q, the store's cache does not", k, cs.Ops[k].Op, n)}
+			}
+		}
+	}
+	return nil
+}
+
 func firstDiff(m, i StateJ) string {
 	parts := []struct {
 		n    string
 		a, b interface{}
 	}{{"hb", m.Hb, i.Hb}, {"leaders", m.Leaders, i.Leaders}, {"shards", m.Shards, i.Shards}, {"clusters", m.Clusters, i.Clusters},
-		{"conds", m.Conds, i.Conds}, {"fcs", m.Fcs, i.Fcs}, {"listed", m.Listed, i.Listed}, {"locks", m.Locks, i.Locks}}
+		{"conds", m.Conds, i.Conds}, {"fcs", m.Fcs, i.Fcs}, {"listed", m.Listed, i.Listed}, {"locks", m.Locks, i.Locks}, {"failing", m.Failing, i.Failing}}
 	for _, p := range parts {
 		if a, b := rig.Canon(p.a), rig.Canon(p.b); a != b {
 			if len(a) > 400 {
@@ -299,13 +343,13 @@ func fails(c *rig.Ctx, cs Case, class string) bool {
 }
 
 func shrink(c *rig.Ctx, cs Case, class string) Case {
-	cs.Ops = rig.ShrinkList(cs.Ops, func(l []Op) bool { return fails(c, Case{Shards: cs.Shards, Ops: l}, class) })
+	cs.Ops = rig.ShrinkList(cs.Ops, func(l []Op) bool { return fails(c, Case{Shards: cs.Shards, Store: cs.Store, Ops: l}, class) })
 	// simplify the surviving reports and acquires
 	for k := range cs.Ops {
 		if len(cs.Ops[k].Items) > 1 {
 			k := k
 			cs.Ops[k].Items = rig.ShrinkList(cs.Ops[k].Items, func(l []RItem) bool {
-				x := Case{Shards: cs.Shards, Ops: append([]Op{}, cs.Ops...)}
+				x := Case{Shards: cs.Shards, Store: cs.Store, Ops: append([]Op{}, cs.Ops...)}
 				x.Ops[k].Items = l
 				return fails(c, x, class)
 			})
@@ -313,7 +357,7 @@ func shrink(c *rig.Ctx, cs Case, class string) Case {
 		if len(cs.Ops[k].Reqs) > 1 {
 			k := k
 			cs.Ops[k].Reqs = rig.ShrinkList(cs.Ops[k].Reqs, func(l []Req) bool {
-				x := Case{Shards: cs.Shards, Ops: append([]Op{}, cs.Ops...)}
+				x := Case{Shards: cs.Shards, Store: cs.Store, Ops: append([]Op{}, cs.Ops...)}
 				x.Ops[k].Reqs = l
 				return fails(c, x, class)
 			})
